@@ -15,7 +15,7 @@ MODULE = "DrandProofs.C11"
 THEOREMS = ["Drand.Beacon.Stream." + t for t in [
     "tie_syncchain_calls", "tie_syncchain_guards",
     "c11_scan_exact", "c11_scan_out_stored", "drop_seekIdx", "c11_live_fifo", "c11_no_repeat", "c11_sent_stored", "c11_exact_partial",
-    "c11_gap_counterexample", "c11_gap_counterexample'", "c11_memdb_shift_counterexample", "c11_memdb_evicted_counterexample",
+    "c11_gap_counterexample", "c11_gap_counterexample_after_scan", "c11_memdb_shift_counterexample", "c11_memdb_evicted_counterexample",
     "c11_detach_counterexample", "c11_exact_tracked", "frm_step", "c11_net_projection",
 ]]
 TRUSTED = ["Lean 4 kernel; axioms per theorem under coverage.axioms",
